@@ -72,6 +72,45 @@ impl Monitor for C18 {
         let full_dir = ctx.scratch.sub("c18-full");
         let full = match live_run_ops(&full_dir, Policy::AlwaysFlush, key, &ops) {
             Ok(r) => r,
+            Err(e) if e.starts_with("live restart failed at op ") => {
+                // The full history cannot be re-opened after a clean shutdown.  If the same
+                // history projected onto one queue can, that queue became unavailable through
+                // calls addressed to OTHER queues.
+                let kfail: usize = e["live restart failed at op ".len()..].split(':').next().and_then(|s| s.parse().ok()).unwrap_or(0);
+                let proj_dir = ctx.scratch.sub("c18-proj");
+                for q in &names {
+                    if !ops[..kfail].iter().any(|o| o.queue() == Some(q.as_str())) {
+                        continue;
+                    }
+                    crate::util::clear_dir(&proj_dir);
+                    let Ok(mut sut) = Sut::open(&proj_dir, Policy::AlwaysFlush, key, false) else { continue };
+                    let mut ok = true;
+                    for (i, op) in ops.iter().enumerate().take(kfail + 1) {
+                        let mine = op.queue() == Some(q.as_str());
+                        let global = matches!(op, Op::Restart | Op::Persist { .. });
+                        if !mine && !global {
+                            continue;
+                        }
+                        if let crate::ops::Outcome::Err(_) = sut.apply(i, op) {
+                            if matches!(op, Op::Restart) {
+                                ok = false;
+                                break;
+                            }
+                        }
+                    }
+                    acc.eval();
+                    if ok {
+                        acc.violation(
+                            "C18/restart-fails-in-the-full-history-but-not-in-the-projection",
+                            case,
+                            json!({"full_history": crate::ops::ops_json(&ops[..=kfail]), "full_run": e, "projected_onto": short(q), "projected_run": "every restart up to the same call succeeded"}),
+                        );
+                        return;
+                    }
+                }
+                acc.inconclusive(format!("live run failed, in every projection too (C01 territory): {}", e));
+                return;
+            }
             Err(e) => {
                 acc.inconclusive(format!("live run failed: {}", e));
                 return;
